@@ -1148,13 +1148,29 @@ func ruleSelect(c *Ctx) {
 		})
 		good := mk != nil
 		if good {
-			leaves := phiLeaves(mk.Len)
-			good = false
-			for _, l := range leaves {
-				if l == ssa.Value(ns.Params[0]) {
-					good = true
+			// the length is the parameter itself; the only other value allowed is 0 for a parameter below 1 (which the
+			// selector's constructor refuses anyway): any other clamp makes header, selector and track list disagree
+			tr := c.plainTracer()
+			sawParam := false
+			for _, a := range tr.alts(lval{mk.Len, ns, nil}, 0) {
+				if a.leaf.v == ssa.Value(ns.Params[0]) {
+					sawParam = true
+					continue
+				}
+				k, isK := constInt(a.leaf.v)
+				lowClamp := false
+				for _, g := range a.conds {
+					if cmp, ok := tr.trace(g.cond).v.(*ssa.BinOp); ok && cmp.X == ssa.Value(ns.Params[0]) {
+						if y, ok := constInt(cmp.Y); ok && g.want && ((cmp.Op == token.LSS && y <= 1) || (cmp.Op == token.LEQ && y <= 0)) {
+							lowClamp = true
+						}
+					}
+				}
+				if !isK || k != 0 || !lowClamp {
+					good = false
 				}
 			}
+			good = good && sawParam
 		}
 		newTracks := callsTo(ns, "midix.NewTrack")
 		c.check(good && len(newTracks) == 1 && inLoop(newTracks[0].Block()), fname(ns), c.pos(ns.Pos()), fname(ns), "allocates trackNum tracks", "NewTrackSetFromTrackNum no longer creates exactly trackNum tracks")
